@@ -24,10 +24,10 @@ func (p *c10) Exhaustive() bool { return true }
 
 var (
 	c10Kinds   = []string{"include", "embed"}
-	c10Modes   = []string{"plain", "with", "only", "with+only", "with-override", "with-variable+only", "with-variable", "with-conditional", "with-conditional+only", "name-expression-that-assigns", "with-hash-that-assigns"}
+	c10Modes   = []string{"plain", "with", "only", "with+only", "with-override", "with-variable+only", "with-variable", "with-conditional", "with-conditional+only", "name-expression-that-assigns", "with-hash-that-assigns", "with-special-keys"}
 	c10Sites   = []string{"top", "loop", "block-of-extending-host", "macro", "if", "host-block-same-name"}
 	c10Targets = []string{"plain", "sets-colliding", "sets-fresh", "extends-base", "extends-base-sets", "blocks-from-use-only"}
-	c10Pool    = []string{"x", "y", "w", "z"}
+	c10Pool    = []string{"x", "y", "w", "z", "_context", "_charset"}
 )
 
 const c10OverSubsets = 4
@@ -136,6 +136,9 @@ func c10construct(c c10cfg, tplName string, over int, tag string) gen.Node {
 		// variables as they are when it starts, not as they were when the tag began
 		// (the name itself comes out of a recorded callback: it is asked for once)
 		name = &gen.EBin{Op: "~", L: &gen.ECall{Fn: "setvar", Args: []gen.Expr{str("z"), str("set-by-name-" + tag)}}, R: &gen.ECall{Fn: "ident", Args: []gen.Expr{str(tplName)}}}
+	case 11:
+		// names that mean something in other dialects are keys like any other (only _self is special here)
+		with = &gen.EHash{Keys: []gen.Expr{nm("w"), str("_context"), str("_charset"), str("_key")}, Vals: []gen.Expr{str("ww-" + tag), str("ctx-" + tag), str("cs-" + tag), str("key-" + tag)}}
 	case 10:
 		with = &gen.EHash{Keys: []gen.Expr{nm("w")}, Vals: []gen.Expr{&gen.EBin{Op: "~", L: &gen.ECall{Fn: "setvar", Args: []gen.Expr{str("x"), str("set-by-with-" + tag)}}, R: str("ww-" + tag)}}}
 	}
@@ -161,7 +164,7 @@ func (p *c10) buildCfg(c c10cfg) *Program {
 	ts := map[string]*gen.Template{}
 	// the host's import alias reaches the target when the host has one (not in sites 2 and 3) and the construct
 	// passes the host's variables on (no 'only')
-	callHost := c.site != 2 && c.site != 3 && (c.mode == 0 || c.mode == 1 || c.mode == 4 || c.mode == 6 || c.mode == 7 || c.mode == 9 || c.mode == 10)
+	callHost := c.site != 2 && c.site != 3 && (c.mode == 0 || c.mode == 1 || c.mode == 4 || c.mode == 6 || c.mode == 7 || c.mode == 9 || c.mode == 10 || c.mode == 11)
 	c10target(ts, "tgt", c.target, callHost)
 	var site []gen.Node
 	site = append(site, c10construct(c, "tgt", c.over, "1"))
@@ -213,7 +216,28 @@ func (p *c10) buildCfg(c c10cfg) *Program {
 	}
 	ts["main"] = tpl("main", body...)
 	prog := &Program{Templates: ts, Main: "main", Ctx: map[string]interface{}{"w": "ctxw", "vars": c10vars(c.over + c.target + c.site)}}
-	if style := (c.over + 2*c.twice + 3*c.target + 5*c.site + 7*c.mode) % 4; style != 0 {
+	if style := (c.over + 2*c.twice + 3*c.target + 5*c.site + 7*c.mode) % 5; style == 4 {
+		// a backslash is a character of a name like any other: "rows\\tgt" is not "rows/tgt" (which exists and says DECOY)
+		names := map[string]string{}
+		for n := range ts {
+			if n != "main" {
+				names[n] = "rows\\" + n
+			}
+		}
+		renameTemplates(prog, func(n string) string {
+			if m, ok := names[n]; ok {
+				return m
+			}
+			return n
+		})
+		for n := range names {
+			for _, decoy := range []string{"rows/" + n, n, "rows/" + n + ".twig"} {
+				if _, taken := prog.Templates[decoy]; !taken {
+					prog.Templates[decoy] = tpl(decoy, tx("DECOY:"+decoy))
+				}
+			}
+		}
+	} else if style != 0 {
 		// names are keys: the host lives in a "directory" and names its targets with "./" and "../" (or the
 		// other way round), and templates that a resolution against the host's directory would find exist
 		// and say DECOY
